@@ -744,13 +744,19 @@ impl<'a> Work<'a> {
                     // Not dirty; go directly to the Done state.
                     self.ready_dependents(id);
                 } else if self.options.adopt {
-                    // Act as if the target already finished.
+                    // Act as if the target already finished, keeping the
+                    // dependencies discovered by its last real run.
+                    let deps = self.graph.builds[id]
+                        .discovered_ins()
+                        .iter()
+                        .map(|&dep| self.graph.file(dep).name.clone())
+                        .collect();
                     self.record_finished(
                         id,
                         task::TaskResult {
                             termination: process::Termination::Success,
                             output: vec![],
-                            discovered_deps: None,
+                            discovered_deps: Some(deps),
                         },
                     )?;
                     self.ready_dependents(id);
